@@ -1311,6 +1311,105 @@ class Directed(object):
                         m.LE(m.StrLength(sx), m.StrLength(f(sx, c))), m.LT(m.StrLength(sx), m.StrLength(f(sx, c)))]
         return out
 
+    SIZES = [0, 1, 2, 7, 8, 9, 10, 15, 16, 17, 31, 32, 33, 64, 100, 257]
+
+    def sized_arrays(self, sizes=None):
+        """[(sort name, N, default, [(index const, value const)] in index order, array literal, store chain)]: constant
+        array values with N explicit entries (values distinct from the default and from each other) over Int, BV8 / BV16
+        and String indices; the index constants are CREATED in a shuffled order, so that the order of their id()s is not
+        the order of their values (array values keep their assignments sorted by id)."""
+        m, rnd = self.m, self.rnd
+        out = []
+        for sname in ("Int", "BV", "String"):
+            for n in (sizes or self.SIZES):
+                if sname == "Int":
+                    it, mk = INT, (lambda k: m.Int(3 * k - 40))
+                elif sname == "BV":
+                    w = 8 if n <= 200 else 16
+                    it, mk = BVType(w), (lambda k, w=w: m.BV((7 * k + 3) % (1 << w), w))
+                else:
+                    it, mk = STRING, (lambda k: m.String("k%d" % k))
+                order = list(range(n))
+                rnd.shuffle(order)
+                ks = {}
+                for k in order:                  # creation order = shuffled
+                    ks[k] = mk(k)
+                d = m.Int(-1)
+                pairs = [(ks[k], m.Int(1000 + k)) for k in range(n)]
+                lit_order = list(pairs)
+                rnd.shuffle(lit_order)
+                lit = m.Array(it, d, dict(lit_order))
+                chain = m.Array(it, d)
+                for k, v in lit_order:
+                    chain = m.Store(chain, k, v)
+                outside = [mk(n), mk(n + 1)] if not (sname == "BV" and n >= 250) else [mk(n)]
+                out.append((sname, n, it, d, pairs, lit, chain, outside))
+        return out
+
+    def gen_sizes(self):
+        """container-size thresholds: constant array values with N explicit entries and n-ary operators with N operands,
+        N in SIZES: select at every assigned index (one case per index for N <= 17 and at the id()-extreme / first / last /
+        middle / random indices above; one conjunction over ALL indices for every N), at unassigned indices, after stores
+        that overwrite the first / middle / last key or add a new smallest / largest key; equality of two arrays that
+        differ at exactly one index; both for the literal and for the store chain."""
+        m, rnd = self.m, self.rnd
+        out = []
+        for sname, n, it, d, pairs, lit, chain, outside in self.sized_arrays():
+            for A in (lit, chain):
+                byid = sorted(pairs, key=lambda kv: id(kv[0]))
+                if n <= 17:
+                    pick = pairs
+                else:
+                    pick = [pairs[0], pairs[-1], pairs[n // 2], byid[0], byid[-1], byid[1], byid[-2]] + rnd.sample(pairs, 5)
+                for k, v in pick:
+                    out.append(m.Equals(m.Select(A, k), v))
+                if n:
+                    out.append(m.And([m.Equals(m.Select(A, k), v) for k, v in pairs]))
+                    out.append(m.Plus([m.Select(A, k) for k, v in pairs] + [m.Int(0)]))
+                for k in outside:
+                    out += [m.Select(A, k), m.Equals(m.Select(A, k), d)]
+                nv = m.Int(7)
+                pos = ([pairs[0], pairs[n // 2], pairs[-1], byid[0], byid[-1]] if n else [])
+                for k, v in pos:                                     # overwrite
+                    S_ = m.Store(A, k, nv)
+                    out += [m.Equals(m.Select(S_, k), nv), m.Equals(S_, A), m.Equals(m.Store(S_, k, v), A), m.Equals(m.Store(A, k, d), A)]
+                    if n > 1:
+                        k2, v2 = byid[-1] if k is not byid[-1][0] else byid[0]
+                        out.append(m.Equals(m.Select(S_, k2), v2))
+                for k in outside:                                    # new key
+                    S_ = m.Store(A, k, nv)
+                    out += [m.Equals(m.Select(S_, k), nv), m.Equals(S_, A)]
+                    if n:
+                        out += [m.Equals(m.Select(S_, byid[-1][0]), byid[-1][1]), m.Equals(m.Select(S_, byid[0][0]), byid[0][1])]
+            out += [m.Equals(lit, chain)]
+            if n:
+                for k, v in (pairs[0], pairs[-1], sorted(pairs, key=lambda kv: id(kv[0]))[-1]):
+                    other = m.Array(it, d, dict((kk, (m.Int(5) if kk is k else vv)) for kk, vv in pairs))
+                    out += [m.Equals(lit, other), m.Equals(m.Store(other, k, v), chain)]
+        # n-ary operators with N operands, a distinguished operand at each end
+        p, q, i, j, sx, sy = self.p, self.q, self.i, self.j, self.sx, self.sy
+        x8, y8 = m.Symbol("zx8", BVType(8)), m.Symbol("zy8", BVType(8))
+        for n in self.SIZES:
+            if n < 2:
+                continue
+            mid = n - 2
+            out += [m.And([p] + [m.TRUE()] * mid + [q]), m.And([p] + [m.TRUE()] * mid + [m.FALSE()]), m.Or([p] + [m.FALSE()] * mid + [q]),
+                    m.Or([m.TRUE()] + [m.FALSE()] * mid + [q]), m.And([p] + [m.Not(m.Not(q))] * mid + [m.Not(p)]),
+                    m.Plus([i] + [m.Int(1)] * mid + [j]), m.Plus([i] + [m.Int(k) for k in range(mid)] + [m.Times(j, m.Int(2))]),
+                    m.Times([i] + [m.Int(1)] * mid + [j]), m.Times([i] + [m.Int(1)] * (mid - 1) + [m.Int(0)] * min(mid, 1) + [j]),
+                    m.Times([m.Int(2)] + [m.Int(1)] * mid + [m.Int(3)]),
+                    m.StrConcat([sx] + [m.String("a")] * mid + [sy]) if n >= 2 else sx,
+                    m.StrLength(m.StrConcat([m.String("b")] + [m.String("a")] * mid + [m.String("c")])),
+                    m.Equals(m.Plus([i] + [m.Int(1)] * mid + [j]), m.Plus([j] + [m.Int(1)] * mid + [i]))]
+            t = x8
+            for k in range(mid):
+                t = m.BVAdd(t, m.BV(1, 8))
+            out += [m.BVAdd(t, y8), m.Equals(t, m.BVAdd(x8, m.BV(mid % 256, 8)))]
+            if n <= 33:
+                out += [m.AllDifferent([i] + [m.Int(k) for k in range(mid)] + [j]), m.AllDifferent([m.Int(k) for k in range(n)]),
+                        m.AllDifferent([m.Int(k) for k in range(n - 1)] + [m.Int(0)])]
+        return out
+
     def gen_uf_quant(self):
         m = self.m
         out = []
@@ -1675,7 +1774,7 @@ def run_simplify(chk, rnd, tier):
     plan = [("bool", lambda d: d.gen_bool()), ("int", lambda d: d.gen_arith(INT)), ("real", lambda d: d.gen_arith(REAL)),
             ("strings", lambda d: d.gen_strings()), ("string-hazard", lambda d: d.gen_string_hazard()),
             ("arrays", lambda d: d.gen_arrays()), ("array-nest", lambda d: d.gen_array_nest()), ("boundary", lambda d: d.gen_boundary()),
-            ("siblings", lambda d: d.gen_siblings()), ("selfref", lambda d: d.gen_selfref()), ("uf-quant", lambda d: d.gen_uf_quant())]
+            ("siblings", lambda d: d.gen_siblings()), ("selfref", lambda d: d.gen_selfref()), ("sizes", lambda d: d.gen_sizes()), ("uf-quant", lambda d: d.gen_uf_quant())]
     for w in ((4, 8, 32, 64, 129) if quick else (1, 2, 3, 4, 5, 8, 16, 32, 64, 129)):
         plan.append(("bv-shapes-%d" % w, lambda d, w=w: d.gen_bv_shapes(w)))
     for w in ((1, 2, 3, 4) if quick else (1, 2, 3, 4, 5)):
